@@ -30,12 +30,14 @@ theorem C18_vocabulary_generated :
     have h : keepsPrefixItems = false := by decide
     rw [h]; exact C18_vocabulary s⟩
 
-/-- C18 / C17: reference prefixes and the converter attached to each dialect -/
+/-- C18 / C17: declared meta-schema, reference prefix and converter of each dialect (row 25 repaired: 2019-09 declares 2019-09) -/
 theorem C18_version_table :
-    (schemaVersions.map (fun v => (v.1, v.2.drop 1 |>.take 2))) =
-      [("DRAFT_2020_12", ["#/$defs/", "None"]), ("DRAFT_2019_09", ["#/$defs/", "to_json_schema_2019_09"]),
-       ("DRAFT_7", ["#/definitions/", "to_json_schema_7"]), ("OPEN_API_3_0", ["#/components/schemas/", "to_open_api_3_0"]),
-       ("OPEN_API_3_1", ["#/components/schemas/", "None"])]
+    (schemaVersions.map (fun v => (v.1, v.2.take 3))) =
+      [("DRAFT_2020_12", ["http://json-schema.org/draft/2020-12/schema#", "#/$defs/", "None"]),
+       ("DRAFT_2019_09", ["http://json-schema.org/draft/2019-09/schema#", "#/$defs/", "to_json_schema_2019_09"]),
+       ("DRAFT_7", ["http://json-schema.org/draft-07/schema#", "#/definitions/", "to_json_schema_7"]),
+       ("OPEN_API_3_0", ["None", "#/components/schemas/", "to_open_api_3_0"]),
+       ("OPEN_API_3_1", ["None", "#/components/schemas/", "None"])]
     ∧ oas30Unsupported = ["additionalItems", "dependentRequired", "unevaluatedProperties"] := by decide
 
 /-- C02: the error templates are the documented messages (the harness parses messages through them) -/
